@@ -93,10 +93,12 @@ func (cp *CollectingProcess) startUDPServer() {
 			klog.Error(err)
 			return
 		}
+		// The reader goroutine is registered before the address is published: a caller that
+		// waits for GetAddress() and then calls Stop() must not race with wg.Add().
+		cp.wg.Add(1)
 		cp.updateAddress(conn.LocalAddr())
 		klog.Infof("Start UDP collecting process on %s", cp.netAddress)
 		defer conn.Close()
-		cp.wg.Add(1)
 		go func() {
 			defer cp.wg.Done()
 			for {
